@@ -589,4 +589,69 @@ Section Proofs.
       destruct (get_caller k (callers st)) as [cl|] eqn:Hc; [|reflexivity].
       destruct (cl_send_ok cl); unfold set_phase; simpl; rewrite Hc; reflexivity.
   Qed.
+
+  (* ---------- C04 / C16: the outbound guard ---------- *)
+  Lemma log_put st o : log (put_log st o) = (now st, o) :: log st.
+  Proof. reflexivity. Qed.
+
+  Definition ext (l1 l2 : list (Z * obs)) : Prop := exists pre, l1 = pre ++ l2.
+  Lemma ext_refl l : ext l l. Proof. exists []. reflexivity. Qed.
+  Lemma ext_trans a b d : ext a b -> ext b d -> ext a d.
+  Proof. intros [p Hp] [q Hq]. exists (p ++ q). rewrite Hp, Hq, app_assoc. reflexivity. Qed.
+  Lemma ext_cons x l : ext (x :: l) l. Proof. exists [x]. reflexivity. Qed.
+
+  Lemma log_set_phase st k p : log (set_phase st k p) = log st.
+  Proof. unfold set_phase. destruct (get_caller k (callers st)); reflexivity. Qed.
+
+  Lemma log_do_send st k : ext (log (do_send st k)) (log st).
+  Proof.
+    unfold Endpoint.do_send. destruct (get_caller k (callers st)) as [cl|]; [|apply ext_refl].
+    destruct (cl_send_ok cl); rewrite log_set_phase; simpl; apply ext_cons.
+  Qed.
+
+  Lemma log_settle_ext fuel : forall st, ext (log (settle fuel st)) (log st).
+  Proof.
+    induction fuel as [|f IH]; intros st; [apply ext_refl|]. simpl.
+    destruct (holder st) as [k|].
+    - destruct (get_caller k (callers st)) as [cl|] eqn:Hc; [|apply ext_refl].
+      destruct (cl_phase cl) as [|d|o t]; try apply ext_refl.
+      destruct (queue st) as [|m q]; [apply ext_refl|].
+      destruct (py_eqb _ _).
+      + eapply ext_trans; [apply IH|]. rewrite log_set_phase. simpl.
+        eapply ext_trans; [apply ext_cons|]. apply ext_cons.
+      + destruct (_ <=? 0).
+        * eapply ext_trans; [apply IH|]. rewrite log_set_phase. simpl.
+          eapply ext_trans; [apply ext_cons|]. apply ext_cons.
+        * eapply ext_trans; [apply IH|]. simpl. apply ext_cons.
+    - destruct (waiters st) as [|k ws]; [apply ext_refl|].
+      eapply ext_trans; [apply IH|]. apply (log_do_send (set_waiters st ws) k).
+  Qed.
+
+  (* a request that violates its schema is not written: call() ends with the OCPP error, and the
+     log (hence the wire) is untouched; the skip flag of THIS call is the only one consulted *)
+  Theorem call_guard_reject st k uid action snake suppress send_ok codes :
+    validate tbl (ver c) MCall action (remove_nones (s2c_keys snake)) = VReject codes false ->
+    let st' := start_with tbl errors results timeout c st k uid action snake false suppress send_ok in
+    log st' = log st /\
+    get_caller k (callers st') =
+      Some (mkCaller uid action (remove_nones (s2c_keys snake)) false suppress send_ok (PDone (OInvalid codes) (now st))).
+  Proof.
+    intros Hv. unfold start_with. cbv zeta. rewrite Hv. split; [reflexivity|]. simpl. apply get_set_same.
+  Qed.
+
+  (* a request that satisfies its schema (or whose call skips validation) is written, with exactly
+     the validated payload, as soon as the gate is free *)
+  Theorem call_guard_accept st k uid action snake (skip : bool) suppress w :
+    get_caller k (callers st) = None -> holder st = None -> waiters st = [] ->
+    (if skip then VAccept (remove_nones (s2c_keys snake))
+     else validate tbl (ver c) MCall action (remove_nones (s2c_keys snake))) = VAccept w ->
+    let st' := start_with tbl errors results timeout c st k uid action snake skip suppress true in
+    exists pre, log st' = pre ++ (now st, CallWritten k (JArr [JNum (NInt 2); uid; JStr action; encode w])) :: log st.
+  Proof.
+    intros Hc Hh Hw Hv. unfold start_with. cbv zeta. rewrite Hv, Hh, Hw.
+    unfold Endpoint.quiesce.
+    match goal with |- context [Endpoint.settle _ _ _ _ _ ?f ?s] => destruct (log_settle_ext f s) as [pre Hp] end.
+    exists pre. rewrite Hp. unfold Endpoint.do_send. simpl. rewrite get_set_same. simpl.
+    unfold set_phase. simpl. rewrite get_set_same. reflexivity.
+  Qed.
 End Proofs.
